@@ -161,44 +161,62 @@ theorem encodeErr_false_sizes {l : List Bytes} {k : Nat} (h : leopardEncodeErr l
       have := hany s hs
       simpa using this
 
-/-- the namespace the (fixed) loop gives a leaf of at least 29 bytes: none ("befp is legit") or 29 bytes -/
+/-- the namespace the loop files the `n`-th leaf under (when it does not bail out) -/
+def nsOfLeaf (k index n : Nat) (sh : Bytes) : Bytes :=
+  if n < k ∧ index < k then sh.take NS_SIZE else parityNs
+
+def leafNsList (k index : Nat) : List Bytes → Nat → List Bytes
+  | [], _ => []
+  | sh :: rest, n => nsOfLeaf k index n sh :: leafNsList k index rest (n + 1)
+
+/-- the namespace the (fixed) loop gives a leaf of at least 29 bytes: none ("befp is legit") or `nsOfLeaf`, 29 bytes -/
 theorem leafNs_fixed (k index n : Nat) {sh : Bytes} (hl : NS_SIZE ≤ sh.length) :
-    leafNs Flags.fixed k index n sh = .ok none ∨ ∃ ns, leafNs Flags.fixed k index n sh = .ok (some ns) ∧ ns.length = NS_SIZE := by
-  unfold leafNs
+    leafNs Flags.fixed k index n sh = .ok none ∨
+      (leafNs Flags.fixed k index n sh = .ok (some (nsOfLeaf k index n sh)) ∧ (nsOfLeaf k index n sh).length = NS_SIZE) := by
+  unfold leafNs nsOfLeaf
   simp only [Flags.fixed, Bool.not_true, Bool.false_or]
   have hl' : ¬ sh.length < NS_SIZE := by omega
-  by_cases hq : (decide (n < k) && decide (index < k)) = true
-  · simp only [hq, ↓reduceIte, hl']
+  by_cases hq : n < k ∧ index < k
+  · have hq' : (decide (n < k) && decide (index < k)) = true := by simp [hq.1, hq.2]
+    simp only [hq', ↓reduceIte, hl', hq, and_self]
     cases hf : Lumina.Model.Namespace.fromRaw (sh.take NS_SIZE) with
     | error er => left; rfl
     | ok ns =>
       right
-      exact ⟨ns, rfl, by rw [fromRaw_eq hf, List.length_take]; omega⟩
-  · simp only [hq, Bool.false_eq_true, ↓reduceIte]
+      have hns := fromRaw_eq hf
+      subst hns
+      exact ⟨by simp, by rw [List.length_take]; omega⟩
+  · have hq' : (decide (n < k) && decide (index < k)) = false := by
+      simp only [Bool.and_eq_false_iff, decide_eq_false_iff_not]
+      by_cases h1 : n < k
+      · right; exact fun h2 => hq ⟨h1, h2⟩
+      · left; exact h1
+    simp only [hq', Bool.false_eq_true, ↓reduceIte, hq]
     right
-    exact ⟨parityNs, rfl, by decide⟩
+    exact ⟨by simp, by decide⟩
 
-/-- what the rebuild loop returns when it does not bail out: the leaf hashes of the shares under namespaces of 29 bytes
-    in non-decreasing order -/
+/-- what the rebuild loop returns when it does not bail out: the leaf hashes of the shares under the namespaces
+    `leafNsList` (29 bytes each, in non-decreasing order) -/
 theorem rebuildLeaves_some (H : HashFn) (k index : Nat) : ∀ (full : List Bytes) (n : Nat) (hi : Bytes) (hs : List NsHash),
     (∀ s ∈ full, NS_SIZE ≤ s.length) →
     rebuildLeaves Flags.fixed H k index full n hi = .ok (some hs) →
-    ∃ nss, hs = List.zipWith (hashLeaf H) nss full ∧ nss.length = full.length ∧
-      (∀ ns ∈ nss, ns.length = NS_SIZE ∧ leB hi ns = true) ∧ nss.Pairwise (fun a b => leB a b = true)
+    hs = List.zipWith (hashLeaf H) (leafNsList k index full n) full ∧ (leafNsList k index full n).length = full.length ∧
+      (∀ ns ∈ leafNsList k index full n, ns.length = NS_SIZE ∧ leB hi ns = true) ∧
+      (leafNsList k index full n).Pairwise (fun a b => leB a b = true)
   | [], _, _, hs, _, h => by
     simp only [rebuildLeaves, Except.ok.injEq, Option.some.injEq] at h
     subst h
-    exact ⟨[], rfl, rfl, by simp, List.Pairwise.nil⟩
+    exact ⟨rfl, rfl, by simp [leafNsList], by simp [leafNsList]⟩
   | sh :: rest, n, hi, hs, hsz, h => by
     simp only [rebuildLeaves] at h
-    rcases leafNs_fixed k index n (hsz sh (by simp)) with hn | ⟨ns, hn, hnl⟩
+    rcases leafNs_fixed k index n (hsz sh (by simp)) with hn | ⟨hn, hnl⟩
     · simp [hn] at h
     · simp only [hn] at h
       split at h
       · cases h
       · rename_i hlt
-        have hle : leB hi ns = true := by unfold leB; simpa using hlt
-        cases hr : rebuildLeaves Flags.fixed H k index rest (n + 1) ns with
+        have hle : leB hi (nsOfLeaf k index n sh) = true := by unfold leB; simpa using hlt
+        cases hr : rebuildLeaves Flags.fixed H k index rest (n + 1) (nsOfLeaf k index n sh) with
         | error er => simp [hr] at h
         | ok o =>
           cases o with
@@ -206,14 +224,15 @@ theorem rebuildLeaves_some (H : HashFn) (k index : Nat) : ∀ (full : List Bytes
           | some hs' =>
             simp only [hr, Except.ok.injEq, Option.some.injEq] at h
             subst h
-            obtain ⟨nss, e1, e2, e3, e4⟩ := rebuildLeaves_some H k index rest (n + 1) ns hs'
+            obtain ⟨e1, e2, e3, e4⟩ := rebuildLeaves_some H k index rest (n + 1) _ hs'
               (fun s hs => hsz s (List.mem_cons_of_mem _ hs)) hr
-            refine ⟨ns :: nss, by simp [e1], by simp [e2], ?_, ?_⟩
+            refine ⟨by simp [leafNsList, e1], by simp [leafNsList, e2], ?_, ?_⟩
             · intro x hx
-              rcases List.mem_cons.mp hx with rfl | hx
+              simp only [leafNsList, List.mem_cons] at hx
+              rcases hx with rfl | hx
               · exact ⟨hnl, hle⟩
               · exact ⟨(e3 x hx).1, Lumina.Proofs.NmtOrder.leB_trans hle (e3 x hx).2⟩
-            · rw [List.pairwise_cons]
+            · simp only [leafNsList, List.pairwise_cons]
               exact ⟨fun x hx => (e3 x hx).2, e4⟩
 
 /-- with shares of at least 29 bytes the (fixed) rebuild loop cannot fail: it returns leaves or bails out -/
@@ -223,13 +242,13 @@ theorem rebuildLeaves_no_error (H : HashFn) (k index : Nat) : ∀ (full : List B
   | sh :: rest, n, hi, hsz, er => by
     have ih := fun ns => rebuildLeaves_no_error H k index rest (n + 1) ns (fun s hs => hsz s (List.mem_cons_of_mem _ hs))
     simp only [rebuildLeaves]
-    rcases leafNs_fixed k index n (hsz sh (by simp)) with hn | ⟨ns, hn, _⟩
+    rcases leafNs_fixed k index n (hsz sh (by simp)) with hn | ⟨hn, _⟩
     · simp [hn]
     · simp only [hn]
       split
       · simp
-      · cases hr : rebuildLeaves Flags.fixed H k index rest (n + 1) ns with
-        | error e' => exact (ih ns e' hr).elim
+      · cases hr : rebuildLeaves Flags.fixed H k index rest (n + 1) (nsOfLeaf k index n sh) with
+        | error e' => exact (ih _ e' hr).elim
         | ok o => cases o <;> simp
 
 theorem reconstructStep_length {C : Codec} (hreclen : ∀ l, (C.recon l).length = l.length) {k : Nat} {rebuilt recd : List Bytes}
@@ -240,33 +259,52 @@ theorem reconstructStep_length {C : Codec} (hreclen : ∀ l, (C.recon l).length 
   · injection h with h; rw [← h]
   · injection h with h; rw [← h, hreclen]
 
-/-- equal leaf-hash lists: equal data (idealised hash, 29-byte namespaces on both sides) -/
-theorem zipWith_leaf_inj {H : HashFn} (hk : HashOK H) : ∀ (nss : List Bytes) (full : List Bytes) (cs : List Share),
+/-- equal leaf-hash lists: equal data (no collision among the leaf preimages of both sides, 29-byte namespaces) -/
+theorem zipWith_leaf_inj {H : HashFn} {S : Bytes → Prop} (hi : NoCollOn H S) : ∀ (nss : List Bytes) (full : List Bytes) (cs : List Share),
     nss.length = full.length → (∀ ns ∈ nss, ns.length = NS_SIZE) → (∀ c ∈ cs, c.ns.length = NS_SIZE) →
+    (∀ p ∈ nss.zip full, S (leafInput p.1 p.2)) → (∀ c ∈ cs, S (leafInput c.ns c.data)) →
     List.zipWith (hashLeaf H) nss full = cs.map (Share.leafHash H) → full = cs.map Share.data
-  | [], [], cs, _, _, _, h => by
+  | [], [], cs, _, _, _, _, _, h => by
     cases cs with
     | nil => rfl
     | cons c t => simp at h
-  | [], _ :: _, _, hl, _, _, _ => by simp at hl
-  | _ :: _, [], _, hl, _, _, _ => by simp at hl
-  | ns :: nss, d :: full, cs, hl, h1, h2, h => by
+  | [], _ :: _, _, hl, _, _, _, _, _ => by simp at hl
+  | _ :: _, [], _, hl, _, _, _, _, _ => by simp at hl
+  | ns :: nss, d :: full, cs, hl, h1, h2, hS1, hS2, h => by
     cases cs with
     | nil => simp at h
     | cons c t =>
       simp only [List.zipWith_cons_cons, List.map_cons, List.cons.injEq] at h ⊢
       obtain ⟨hh, ht⟩ := h
-      refine ⟨?_, zipWith_leaf_inj hk nss full t (by simpa using hl) (fun x hx => h1 x (List.mem_cons_of_mem _ hx))
-        (fun x hx => h2 x (List.mem_cons_of_mem _ hx)) ht⟩
+      refine ⟨?_, zipWith_leaf_inj hi nss full t (by simpa using hl) (fun x hx => h1 x (List.mem_cons_of_mem _ hx))
+        (fun x hx => h2 x (List.mem_cons_of_mem _ hx))
+        (fun p hp => hS1 p (by simp only [List.zip_cons_cons]; exact List.mem_cons_of_mem _ hp))
+        (fun x hx => hS2 x (List.mem_cons_of_mem _ hx)) ht⟩
       unfold Share.leafHash at hh
       have hn : ns.length = c.ns.length := by rw [h1 ns (by simp), h2 c (by simp)]
-      exact (hashLeaf_inj hk hn (congrArg NsHash.hash hh)).2
+      exact (hashLeaf_inj_on hi hn (hS1 (ns, d) (by simp)) (hS2 c (by simp)) (congrArg NsHash.hash hh)).2
+
+/-- the byte strings hashed by the re-encoding check of `validate` on the rebuilt axis: the leaves of the re-encoded axis
+    (under the namespaces the loop assigns) and the inner nodes of its tree -/
+def encodingInputs (H : HashFn) (C : Codec) (k index : Nat) (rebuilt : List Bytes) : List Bytes :=
+  match reconstructStep C k rebuilt with
+  | none => []
+  | some recd =>
+    ((leafNsList k index (recd.take k ++ C.enc (recd.take k)) 0).zip (recd.take k ++ C.enc (recd.take k))).map
+        (fun p => leafInput p.1 p.2) ++
+      rootInputs H true
+        ((List.zipWith (hashLeaf H) (leafNsList k index (recd.take k ++ C.enc (recd.take k)) 0)
+          (recd.take k ++ C.enc (recd.take k))).length + 1)
+        (List.zipWith (hashLeaf H) (leafNsList k index (recd.take k ++ C.enc (recd.take k)) 0)
+          (recd.take k ++ C.enc (recd.take k)))
 
 /-- **the encoding check accepts ("befp is legit") whenever the committed axis is not a codeword** — whatever the
-    rebuilt shares are: what comes out of reconstruct + encode IS a codeword, so its tree cannot have the committed root -/
-theorem checkEncoding_noncodeword {H : HashFn} (hk : HashOK H) (C : Codec) {ver : Nat} {X : List Bytes} {e : Eds}
+    rebuilt shares are: what comes out of reconstruct + encode IS a codeword, so its tree cannot have the committed root
+    (no collision among the inputs hashed for the committed square and for the re-encoded axis) -/
+theorem checkEncoding_noncodeword {H : HashFn} (C : Codec) {ver : Nat} {X : List Bytes} {e : Eds}
     (hn : NewOK ver X e) {dah : Dah} (hd : Dah.ofEds H e = .ok dah) (axis : Axis) {index : Nat} (hidx : index < e.width)
     (rebuilt : List Bytes) (hrl : rebuilt.length = e.width)
+    (hk : HashOKOn H (fun y => y ∈ edsInputs H e ++ encodingInputs H C (e.width / 2) index rebuilt))
     (hnc : ¬ IsCodeword C.enc (e.width / 2) (axisData e X axis index))
     (hencsz : ∀ l, (∀ s ∈ l, 64 ≤ s.length) → ∀ s ∈ C.enc l, NS_SIZE ≤ s.length)
     (hreclen : ∀ l, (C.recon l).length = l.length) :
@@ -285,20 +323,31 @@ theorem checkEncoding_noncodeword {H : HashFn} (hk : HashOK H) (C : Codec) {ver 
       obtain ⟨n, hn64, hsizes⟩ := encodeErr_false_sizes hee
       have htk : ∀ s ∈ recd.take (e.width / 2), 64 ≤ s.length := fun s hs => by
         rw [hsizes s (List.mem_of_mem_take hs)]; exact hn64
-      have hfull : ∀ s ∈ recd.take (e.width / 2) ++ C.enc (recd.take (e.width / 2)), NS_SIZE ≤ s.length := by
+      generalize hfull' : recd.take (e.width / 2) ++ C.enc (recd.take (e.width / 2)) = full at *
+      have hfull : ∀ s ∈ full, NS_SIZE ≤ s.length := by
         intro s hs
+        rw [← hfull'] at hs
         rcases List.mem_append.mp hs with h | h
         · have := htk s h; simp only [NS_SIZE]; omega
         · exact hencsz _ htk s h
-      cases hrb : rebuildLeaves Flags.fixed H (e.width / 2) index
-          (recd.take (e.width / 2) ++ C.enc (recd.take (e.width / 2))) 0 (List.replicate NS_SIZE 0) with
+      cases hrb : rebuildLeaves Flags.fixed H (e.width / 2) index full 0 (List.replicate NS_SIZE 0) with
       | error er => exact (rebuildLeaves_no_error H _ _ _ _ _ hfull er hrb).elim
       | ok o =>
         cases o with
         | none => rfl
         | some hs =>
           simp only
-          obtain ⟨nss, e1, e2, e3, e4⟩ := rebuildLeaves_some H _ _ _ _ _ hs hfull hrb
+          obtain ⟨e1, e2, e3, e4⟩ := rebuildLeaves_some H _ _ _ _ _ hs hfull hrb
+          generalize hnss : leafNsList (e.width / 2) index full 0 = nss at *
+          -- membership of the hashed inputs
+          have hSenc : ∀ y, y ∈ (nss.zip full).map (fun p => leafInput p.1 p.2) ++ rootInputs H true (hs.length + 1) hs →
+              y ∈ edsInputs H e ++ encodingInputs H C (e.width / 2) index rebuilt := by
+            intro y hy
+            apply List.mem_append_right
+            unfold encodingInputs
+            rw [hrs]
+            simp only [hfull', hnss, ← e1]
+            exact hy
           -- the committed root of the axis
           obtain ⟨r, hr1, hr2⟩ := hn.axisRoot H axis hidx
           have hroot : dah.root? axis index = some r := by
@@ -313,9 +362,7 @@ theorem checkEncoding_noncodeword {H : HashFn} (hk : HashOK H) (C : Codec) {ver 
               simp only [Dah.root?, Dah.colRoot?, h2, h1]
           rw [hroot]
           simp only
-          -- the rebuilt tree has a root (ordered leaves)
-          have hzip : hs = (nss.zip (recd.take (e.width / 2) ++ C.enc (recd.take (e.width / 2)))).map
-              (fun p => hashLeaf H p.1 p.2) := by
+          have hzip : hs = (nss.zip full).map (fun p => hashLeaf H p.1 p.2) := by
             rw [e1, List.map_zip_eq_zipWith]
             rfl
           have hne : hs ≠ [] := by
@@ -323,6 +370,7 @@ theorem checkEncoding_noncodeword {H : HashFn} (hk : HashOK H) (C : Codec) {ver 
             intro h0
             have := congrArg List.length h0
             rw [List.length_zipWith, e2] at this
+            rw [← hfull'] at this
             simp only [Nat.min_self, List.length_append, List.length_take, List.length_nil] at this
             obtain ⟨j, hj1, _, hj⟩ := hn.pow
             have : 2 ≤ e.width := by
@@ -342,18 +390,33 @@ theorem checkEncoding_noncodeword {H : HashFn} (hk : HashOK H) (C : Codec) {ver 
           by_cases heq : root' = r
           · exfalso
             subst heq
-            have al : AllLeaf H hs := by
+            have al : AllLeafOn H (fun y => y ∈ edsInputs H e ++ encodingInputs H C (e.width / 2) index rebuilt) hs := by
               rw [hzip]; intro x hx
               obtain ⟨p, hp, rfl⟩ := List.mem_map.mp hx
-              exact ⟨p.1, p.2, (e3 p.1 (List.of_mem_zip hp).1).1, rfl⟩
-            have al' := Lumina.Proofs.ShrexEds.allLeaf_lineCells hn H axis hidx
-            have hlists := computeRoot_hash_inj hk al al' hroot' hr2 rfl
+              exact ⟨p.1, p.2, (e3 p.1 (List.of_mem_zip hp).1).1, rfl,
+                hSenc _ (List.mem_append_left _ (List.mem_map.mpr ⟨p, hp, rfl⟩))⟩
+            have hax := hn.axis axis hidx
+            have hcsz : ∀ sh ∈ lineCells e.width X axis index, NS_SIZE ≤ sh.data.length := by
+              intro sh hsh; rw [(hn.cells index hidx axis sh hsh).size]; decide
+            have al' : AllLeafOn H (fun y => y ∈ edsInputs H e ++ encodingInputs H C (e.width / 2) index rebuilt)
+                ((lineCells e.width X axis index).map (Share.leafHash H)) :=
+              (axis_allLeafOn hax hcsz).mono (fun y hy => List.mem_append_left _ (axisInputs_mem_eds hidx hy))
+            have hlists := computeRoot_hash_inj_on hk (List.mem_append_left _ (nil_mem_edsInputs H e)) al al'
+              (fun y hy => hSenc y (List.mem_append_right _ hy))
+              (fun y hy => List.mem_append_left _ (axisInputs_mem_eds hidx (axis_rootInputs_mem hax hy)))
+              hroot' hr2 rfl
             rw [e1] at hlists
-            have hdata := zipWith_leaf_inj hk nss _ (lineCells e.width X axis index) e2 (fun ns h => (e3 ns h).1)
-              (fun c hc => ns_length (hn.cells index hidx axis c hc).size) hlists
+            have hdata := zipWith_leaf_inj hk.inj nss full (lineCells e.width X axis index) e2 (fun ns h => (e3 ns h).1)
+              (fun c hc => ns_length (hn.cells index hidx axis c hc).size)
+              (fun p hp => hSenc _ (List.mem_append_left _ (List.mem_map.mpr ⟨p, hp, rfl⟩)))
+              (fun c hc => List.mem_append_left _ (axisInputs_mem_eds hidx (by
+                unfold axisInputs; rw [hax]
+                exact List.mem_append_left _ (List.mem_map.mpr ⟨c, hc, rfl⟩))))
+              hlists
             -- so the committed axis is `data ++ enc data`
             apply hnc
-            have hax : axisData e X axis index = recd.take (e.width / 2) ++ C.enc (recd.take (e.width / 2)) := hdata.symm
+            have hax' : axisData e X axis index = recd.take (e.width / 2) ++ C.enc (recd.take (e.width / 2)) := by
+              rw [hfull']; exact hdata.symm
             have htl : (recd.take (e.width / 2)).length = e.width / 2 := by rw [List.length_take, hrecl]; omega
             have hal : (axisData e X axis index).length = e.width := by simp [axisData, lineCells]
             obtain ⟨j, hj1, _, hj⟩ := hn.pow
@@ -361,7 +424,7 @@ theorem checkEncoding_noncodeword {H : HashFn} (hk : HashOK H) (C : Codec) {ver 
               obtain ⟨j', rfl⟩ : ∃ j', j = j' + 1 := ⟨j - 1, by omega⟩
               rw [hj, Nat.pow_succ]; omega
             refine ⟨by rw [hal]; exact hw2.symm, ?_⟩
-            rw [hax, List.drop_left' htl, List.take_left' htl]
+            rw [hax', List.drop_left' htl, List.take_left' htl]
           · have : (root' == r) = false := by simpa using heq
             simp [this]
 
